@@ -23,7 +23,7 @@ RULE = ("function level: columnar zones laid out like SequenceStreamMerger::batc
         "zones without link / time column, link texts shared by many rows, by one side only, aliasing integers ('5','05','+5'), empty and "
         "'null'; times with ties, nulls, negatives, i64::MAX; field cells numeric, empty, non-numeric) x FOLLOWED BY / PRECEDED BY x WHERE "
         "trees (AND/OR/NOT over comparisons prefixed with either type, a third type, or un-prefixed incl. ambiguous ones) x LIMIT through "
-        "the real ColumnarGrouper + SequenceWhereEvaluator + SequenceMatcher, raw and pre-filtered by the per-type WHERE as the pipeline "
+        "the real ColumnarGrouper + SequenceWhereEvaluator + SequenceMatcher + SequenceMaterializer (zones share zone ids pairwise like zones of two segments; every built event must be the event of its row index), raw and pre-filtered by the per-type WHERE as the pipeline "
         "does; engine level: STORE histories over two event types (several contexts, 1 or 3 shards, memory / flushed / mixed placement) "
         "and QUERY a FOLLOWED BY|PRECEDED BY b LINKED BY k USING TIME t [WHERE ..] [LIMIT n] through the real engine.  A case is "
         "non-trivial when at least one pair was returned or expected; distinct by (kind, link, implementation output)")
